@@ -408,6 +408,23 @@ func (g *replayGen) structAt(ref string, T types.Type, depth int) (string, bool)
 			fs = append(fs, f.Name()+": "+lit)
 			continue
 		}
+		if a, ok := ft.Underlying().(*types.Array); ok {
+			// array-typed field: element heap at the field's address
+			en := g.vc.d.embName(T, i)
+			ehn, _ := g.vc.d.elemHeap(a.Elem())
+			if _, ok := g.vc.heapSorts[ehn]; !ok {
+				continue
+			}
+			if _, ok := g.vc.d.funs[en]; !ok {
+				continue
+			}
+			l, ok := g.expr(fmt.Sprintf("(select %s!0 (%s %s))", ehn, en, ref), ft, depth+1)
+			if !ok {
+				return "", false
+			}
+			fs = append(fs, f.Name()+": "+l)
+			continue
+		}
 		hn, _ := g.vc.d.fieldHeap(T, i)
 		if _, ok := g.vc.heapSorts[hn]; !ok {
 			continue // never read: zero
